@@ -81,13 +81,13 @@ type PField struct {
 	JSONOpt string // explicit json_name option ("" = none)
 	// Unpacked: a repeated scalar field declared [packed = false] (the reference encoder writes one record per element)
 	Unpacked bool
-	JSON    string // JSON name according to the reference descriptor (filled after parsing)
-	Card    int
-	K       pKind // element / map-value kind
-	KeyK    pKind // map key kind
-	Msg     *PMsg // K == pkMessage
-	Enum    *PEnum
-	Idx     int // index in PMsg.Fields
+	JSON     string // JSON name according to the reference descriptor (filled after parsing)
+	Card     int
+	K        pKind // element / map-value kind
+	KeyK     pKind // map key kind
+	Msg      *PMsg // K == pkMessage
+	Enum     *PEnum
+	Idx      int // index in PMsg.Fields
 }
 
 func (f *PField) typeText() string {
